@@ -782,7 +782,8 @@ impl PoolGen {
             2 if self.allow_config => Some(Op::Pm {
                 sender,
                 msg: pm::ExecuteMsg::UpdateConfig {
-                    fee_collector_addr: Some(w.fc.to_string()),
+                    // the fee collector may be the contract or a plain account, and changes hands
+                    fee_collector_addr: Some(if self.rng.gen_bool(0.5) { w.fc.to_string() } else { w.fc2.to_string() }),
                     farm_manager_addr: Some(w.fm.to_string()),
                     pool_creation_fee: None,
                     feature_toggle: None,
